@@ -442,6 +442,25 @@ def run(ck):
             scale_event("construct_with_rejections:%s/chain" % fam_name, len(order) + rej[0], len(c_stc.calls), res, K=2, slack=16)
         else:
             scale_event("construct_with_rejections:%s/chain" % fam_name, 1, 0, res)
+    # the partitions (generators, not walkers) and propagate_toplevel over conjunctions / disjunctions SHARED through nested
+    # And / Or nodes: f_{i+1} = And(And(f_i, a_i), And(f_i, b_i)) has 2^40 paths to f_0 and 40 * 5 nodes
+    pysmt.environment.reset_env()
+    env = pysmt.environment.get_env()
+    m = env.formula_manager
+    for opn, mk in (("and", m.And), ("or", m.Or)):
+        cur = m.Symbol("s0", BOOL)
+        for k in range(40):
+            cur = mk(mk(cur, m.Symbol("a%d" % k, BOOL)), mk(cur, m.Symbol("b%d" % k, BOOL)))
+        order, idx, kids = real_dag(cur)
+        got = []
+        part = rw.conjunctive_partition if opn == "and" else rw.disjunctive_partition
+        res = timed(lambda: got.append(len(list(part(cur)))), 20)
+        if res == "ok" and got[0] != 81:
+            res = "wrong_number_of_parts"
+        scale_event("partition_over_shared_%s_diamond" % opn, len(order), 0, res, K=1, slack=8)
+        if opn == "and":
+            res = timed(lambda: rw.propagate_toplevel(cur, env), 20)
+            scale_event("propagate_toplevel_over_shared_and_diamond", len(order), 0, res, K=1, slack=8)
     # REJECTING an application on top of a big shared DAG costs no more than type-checking it: the error (and its
     # message) must not walk the tree expansion of the operands (2^40 nodes here)
     for fam_name, bad in (("bool", "equals_on_bool_terms"), ("bool", "plus_on_bool_terms"), ("int", "and_on_int_terms"), ("bv", "bvadd_other_width")):
